@@ -1,5 +1,118 @@
-//! part 2 (placeholder)
+//! part 2: initial-solution round trip. pragen problem -> solve (inside `isolated(1, …)`, reproducible) ->
+//! `write_pragmatic` -> real `read_init_solution` -> job activities with place index per (vehicle, shift) and the
+//! customer unassigned set, before and after.
+
 use serde_json::{Value, json};
+use std::io::BufReader;
+use std::sync::Arc;
+use vrp_core::models::problem::{Job, JobIdDimension, Multi, VehicleIdDimension};
+use vrp_core::models::{Problem as CoreProblem, Solution as CoreSolution};
+use vrp_core::utils::DefaultRandom;
+use vrp_pragmatic::format::solution::read_init_solution;
+use vrp_pragmatic::format::{JobTypeDimension, ShiftIndexDimension};
+use vrp_verif_harness::pragen::*;
 use vrp_verif_harness::*;
-pub fn gen_cases(_rng: &mut Rng, _tier: Tier, _cases: &mut Vec<Value>) {}
-pub fn exec(_case: &Value) -> Value { json!({}) }
+
+fn int(f: f64) -> Value {
+    if f.fract() == 0. && f.abs() < 9.0e15 { json!(f as i64) } else if f == f64::MAX { json!("max") } else { json!({"f": f}) }
+}
+
+/// job activities of a core solution: per route (vehicle id, shift index) the activities that carry a job
+pub fn extract(solution: &CoreSolution) -> Value {
+    let mut tours = vec![];
+    for route in solution.routes.iter() {
+        let dimens = &route.actor.vehicle.dimens;
+        let mut acts = vec![];
+        for a in route.tour.all_activities() {
+            let Some(single) = a.job.as_ref() else { continue };
+            let job = a.retrieve_job().unwrap();
+            let job_id = job.dimens().get_job_id().cloned().unwrap_or_default();
+            let task = match Multi::roots(single) {
+                Some(multi) => multi.jobs.iter().position(|s| Arc::ptr_eq(s, single)).map(|i| i as i64).unwrap_or(-1),
+                None => 0,
+            };
+            acts.push(json!({
+                "job": job_id,
+                "type": single.dimens.get_job_type().cloned().unwrap_or_default(),
+                "bound": single.dimens.get_vehicle_id().is_some(),
+                "task": task,
+                "place": a.place.idx,
+                "loc": a.place.location,
+                "arr": int(a.schedule.arrival),
+                "dep": int(a.schedule.departure),
+                "tws": int(a.place.time.start),
+                "twe": int(a.place.time.end),
+                "dur": int(a.place.duration),
+            }));
+        }
+        tours.push(json!({
+            "vehicle": dimens.get_vehicle_id().cloned().unwrap_or_default(),
+            "shift": dimens.get_shift_index().copied().unwrap_or_default(),
+            "acts": acts,
+        }));
+    }
+    let mut unassigned: Vec<String> = solution
+        .unassigned
+        .iter()
+        .filter(|(job, _)| job.dimens().get_vehicle_id().is_none())
+        .map(|(job, _)| job.dimens().get_job_id().cloned().unwrap_or_default())
+        .collect();
+    unassigned.sort();
+    // vehicle-bound marker jobs (breaks, reloads) left unassigned: reported separately, not part of the property
+    let mut unused_bound: Vec<String> = solution
+        .unassigned
+        .iter()
+        .filter(|(job, _)| job.dimens().get_vehicle_id().is_some())
+        .map(|(job, _)| job.dimens().get_job_id().cloned().unwrap_or_default())
+        .collect();
+    unused_bound.sort();
+    let _ = Job::Single;
+    json!({"tours": tours, "unassigned": unassigned, "unused_bound": unused_bound})
+}
+
+pub fn read_back(problem: Arc<CoreProblem>, solution_json: &Value) -> Result<CoreSolution, String> {
+    let text = serde_json::to_string(solution_json).unwrap();
+    read_init_solution(BufReader::new(text.as_bytes()), problem, Arc::new(DefaultRandom::default())).map_err(|e| e.to_string())
+}
+
+fn run(sp: SProblem, gens: usize) -> Value {
+    let problem = match sp.read() {
+        Ok(p) => p,
+        Err(codes) => return json!({"invalid": codes}),
+    };
+    let (solution, sol_json) = match solve_default(problem.clone(), quiet_env(), gens) {
+        Ok(x) => x,
+        Err(e) => return json!({"solve_error": e}),
+    };
+    let orig = extract(&solution);
+    let written = simplify_solution(&sol_json);
+    match read_back(problem, &sol_json) {
+        Ok(s2) => json!({"orig": orig, "written": written, "init_read_ok": true, "reread": extract(&s2)}),
+        Err(e) => json!({"orig": orig, "written": written, "init_read_ok": false, "error": e}),
+    }
+}
+
+pub fn gen_cases(rng: &mut Rng, tier: Tier, cases: &mut Vec<Value>) {
+    let n = if tier == Tier::Thorough { 1500 } else { 60 };
+    for _ in 0..n {
+        let mut cfg = GenCfg::random(rng);
+        cfg.jobs = (3, 10);
+        let sp = gen_problem(rng, &cfg);
+        cases.push(json!({"k": "init", "sp": sp, "gens": rng.usize(5, 40)}));
+    }
+}
+
+pub fn exec(case: &Value) -> Value {
+    let sp: SProblem = match serde_json::from_value(case["sp"].clone()) {
+        Ok(sp) => sp,
+        Err(e) => return json!({"error": format!("bad sp: {e}")}),
+    };
+    let gens = case["gens"].as_u64().unwrap_or(20) as usize;
+    match isolated(1, move || run(sp, gens)) {
+        Ok(v) => v,
+        Err(e) => {
+            let msg = e.downcast_ref::<String>().cloned().or_else(|| e.downcast_ref::<&str>().map(|s| s.to_string())).unwrap_or_default();
+            json!({"panic": msg})
+        }
+    }
+}
